@@ -134,9 +134,18 @@ func (r *Result) Note(format string, args ...any) {
 	r.Notes = append(r.Notes, fmt.Sprintf(format, args...))
 }
 
+var exitHooks []func()
+
+// OnExit registers a function to run before Write exits the process.
+func OnExit(f func()) { exitHooks = append(exitHooks, f) }
+
 // Write stores the result where the driver expects it and exits: 0 when no
 // violation was found by this worker, 1 otherwise, 2 on an internal error.
 func (r *Result) Write() {
+	for _, f := range exitHooks {
+		f()
+	}
+	exitHooks = nil
 	r.WallS = time.Since(r.start).Seconds()
 	sort.Slice(r.Violations, func(i, j int) bool { return r.Violations[i].Sig < r.Violations[j].Sig })
 	data, _ := json.MarshalIndent(r, "", " ")
@@ -169,7 +178,10 @@ func (r *Result) Guard() {
 // Scratch returns a fresh scratch directory for this worker (on /dev/shm
 // when available) and a function removing it.
 func Scratch(tag string) (string, func()) {
-	base := "/dev/shm"
+	base := os.Getenv("VERIF_SCRATCH")
+	if base == "" {
+		base = "/dev/shm"
+	}
 	if fi, err := os.Stat(base); err != nil || !fi.IsDir() {
 		base = os.TempDir()
 	}
@@ -177,5 +189,7 @@ func Scratch(tag string) (string, func()) {
 	if err != nil {
 		panic(err)
 	}
-	return dir, func() { os.RemoveAll(dir) }
+	rm := func() { os.RemoveAll(dir) }
+	OnExit(rm)
+	return dir, rm
 }
